@@ -133,7 +133,7 @@ func ruleHeaderAgreement(c *chk.Ctx) {
 	labels := map[string]bool{}
 	var recvFn *ssa.Function
 	folded := false
-	for _, f := range chanMethods(c, "Recv") {
+	for _, f := range pkgFuncs(c, c.M.ChanPkg) {
 		ir.Instrs(f, func(ins ssa.Instruction) {
 			bo, ok := ins.(*ssa.BinOp)
 			if !ok || bo.Op != token.EQL {
